@@ -287,7 +287,7 @@ func vWorldImports(which int) *vWorld {
 	w.docs[vUSub] = `{"definitions":{"C":` + subC + `,"E":{"description":"sub-E"}},` +
 		`"parameters":{"Q1":` + q1 + `,"Q2":{"name":"q2","in":"body","schema":{"$ref":"#/definitions/C"}},"D1":{"name":"sub-d1","in":"query","type":"string"}},` +
 		`"responses":{"S1":` + s1 + `,"S2":{"description":"s2","schema":{"$ref":"deep/b.json#/definitions/E"}},"T1":{"description":"sub-t1"}},` +
-		`"x-items":{"I1":{"parameters":[` + pl + `],"get":{"parameters":[` + op + `],"responses":{"200":` + r200 + `,"default":` + rdef + `}}}}}`
+		`"x-items":{"I1":{"parameters":[` + pl + `],"get":{"parameters":[` + op + `],"responses":{"200":` + r200 + `,"default":` + rdef + `}},"put":{"operationId":"no-responses","parameters":[{"$ref":"#/parameters/Q2"}]}}}}`
 	w.docs[vUDeep] = `{"definitions":{"E":{"description":"deep-E"},"C":{"description":"deep-C"}},` +
 		`"parameters":{"D1":` + d1 + `},"responses":{"T1":` + t1 + `}}`
 	w.docs[vUFar] = `{"definitions":{"C":{"description":"far-C"},"E":{"description":"far-E"}},` +
